@@ -258,7 +258,7 @@ def run(ctx):
             judge_trace(ctx, trace, "re-executed deviations of direction A")
 
     # ---- 3. direction B
-    plans = [(2, 100)] if not thorough else [(6, 300), (6, 300), (8, 200)]
+    plans = [(1, 150)] if not thorough else [(6, 300), (6, 300), (8, 200)]
     for k, (nruns, nticks) in enumerate(plans):
         trace = os.path.join(ctx.workdir, "drive%d.ndjson" % k)
         seed = ctx.seed * 1000 + k
